@@ -1,6 +1,7 @@
 package vk
 
 import (
+	"strings"
 	"bytes"
 	"fmt"
 	"math/bits"
@@ -313,6 +314,71 @@ func c19Multi(p vbase.Params, r *vbase.Result) {
 						doGroups([][]hotstuff.ID{a, b})
 					}
 				}
+			}
+			// reuse programs: aggregates are values - combining an aggregate again (as first or later argument, several times,
+			// with different partners) must leave every earlier result as it was
+			reuse := p.N(200, 12000)
+			for i := 0; i < reuse; i++ {
+				rng := vbase.NewRng(p.Seed, "C19.multi.reuse", scheme, n, i)
+				type entry struct {
+					sig   hotstuff.QuorumSignature
+					ideal map[hotstuff.ID]bool
+					how   string
+				}
+				var pool []entry
+				for id := 1; id <= n; id++ {
+					pool = append(pool, entry{single[hotstuff.ID(id)], map[hotstuff.ID]bool{hotstuff.ID(id): true}, fmt.Sprintf("s%d", id)})
+				}
+				var trace []string
+				for step := 0; step < rng.Range(3, 9); step++ {
+					k := rng.Range(2, 3)
+					var args []hotstuff.QuorumSignature
+					ideal := map[hotstuff.ID]bool{}
+					total := 0
+					var names []string
+					for a := 0; a < k; a++ {
+						j := rng.Intn(len(pool))
+						if a == 0 && rng.Chance(2, 3) {
+							j = n + rng.Intn(max(1, len(pool)-n)) // prefer an aggregate as the first argument
+							if j >= len(pool) {
+								j = rng.Intn(len(pool))
+							}
+						}
+						args = append(args, pool[j].sig)
+						names = append(names, pool[j].how)
+						for id := range pool[j].ideal {
+							ideal[id] = true
+							total++
+						}
+					}
+					out, err := comb.Combine(args...)
+					how := fmt.Sprintf("C(%s)", strings.Join(names, ","))
+					trace = append(trace, how)
+					r.Obs("combines", 1)
+					if err == nil && total == len(ideal) {
+						if out.Participants().Len() != len(ideal) {
+							r.Violate(vbase.Sig("multi-len", "scheme", scheme, "overlap", false), fmt.Sprintf("%v: Len()=%d but %d distinct signers", trace, out.Participants().Len(), len(ideal)), trace)
+							break
+						}
+						pool = append(pool, entry{out, ideal, how})
+					} else if err != nil && total == len(ideal) {
+						r.Violate(vbase.Sig("multi-combine-fails", "scheme", scheme), fmt.Sprintf("%v: Combine of disjoint signatures failed: %v", trace, err), trace)
+						break
+					}
+					// every earlier result still describes the same signer set
+					bad := false
+					for _, e := range pool {
+						if m := checkSetViewOrd(e.sig.Participants(), e.ideal, IDs(n+1), len(e.ideal)/2+1, scheme == crypto.NameBLS12); m != "" || e.sig.Participants().Len() != len(e.ideal) {
+							r.Violate(vbase.Sig("multi-result-changed", "scheme", scheme), fmt.Sprintf("after %v the earlier result %s no longer describes its %d signers: Len()=%d %s", trace, e.how, len(e.ideal), e.sig.Participants().Len(), m), trace)
+							bad = true
+							break
+						}
+					}
+					if bad {
+						break
+					}
+				}
+				r.Eval(len(pool) > n+1, fmt.Sprintf("%s/%d/reuse/%v", scheme, n, trace))
 			}
 			cnt := p.N(300, 20000)
 			for i := 0; i < cnt; i++ {
